@@ -670,15 +670,21 @@ fn c03_owned(rng: &mut Rng, acc: &mut Acc) {
     let n = shape[axis];
     let op = rng.below(7);
     let pol = pick_policy(rng);
+    // fault injection: in a third of the cases the element's own comparison panics at its k-th call; the routine
+    // is left by unwinding, and what it leaves behind must still be a permutation of every lane (an element
+    // duplicated at that moment would also be dropped twice)
+    let inject = if rng.chance(0.33) { 1 + rng.below(3 * n + 4) as u64 } else { 0 };
     life_reset();
     acc.eval();
     let opname;
+    let mut injected_hit = false;
     let verdict: Result<(), (String, String)> = {
         let data: Vec<Res> = keys.iter().map(|&k| Res::new(k)).collect();
         let mut e = Embedded::new(&shape, &data, layout.clone());
         let before = e.parent_bits();
         let inview = e.in_view_mask();
         set_pivots(pol);
+        life_panic_at(inject);
         let r: Result<(), String> = {
             let mut v = e.view_mut();
             match op {
@@ -766,7 +772,15 @@ fn c03_owned(rng: &mut Rng, acc: &mut Acc) {
                 }
             }
         };
+        life_panic_at(0);
         let after = e.parent_bits();
+        let r = match r {
+            Err(m) if inject > 0 && m.contains(INJECTED_PANIC) => {
+                injected_hit = true;
+                Ok(())
+            }
+            other => other,
+        };
         match r {
             Err(m) => Err(("no_panic".to_string(), format!("panicked: {}", m))),
             Ok(()) => {
@@ -796,8 +810,11 @@ fn c03_owned(rng: &mut Rng, acc: &mut Acc) {
     let (_alive, events) = life_stats();
     acc.max("lifecycle_events_per_case", events as f64);
     acc.count(&format!("owned_op_{}", opname));
+    if injected_hit {
+        acc.count("owned_calls_left_by_an_injected_comparison_panic");
+    }
     acc.count(&format!("layout_{}", layout.class()));
-    let info = |what: String| J::obj(vec![("op", J::s(format!("{} on elements that own a resource", opname))), ("shape", J::us(&shape)), ("axis", J::u(axis)), ("layout", layout.to_json()), ("keys", J::A(keys.iter().map(|&x| J::I(x as i128)).collect())), ("what", J::s(what))]);
+    let info = |what: String| J::obj(vec![("op", J::s(format!("{} on elements that own a resource", opname))), ("shape", J::us(&shape)), ("axis", J::u(axis)), ("layout", layout.to_json()), ("keys", J::A(keys.iter().map(|&x| J::I(x as i128)).collect())), ("injected_comparison_panic_at", J::u(inject as usize)), ("left_by_unwinding", J::B(injected_hit)), ("what", J::s(what))]);
     if let Some(f) = life_fault() {
         acc.violation("element_lifecycle", None, info(f));
     } else if let Err((mon, what)) = verdict {
@@ -820,7 +837,7 @@ fn c03_tracked(rng: &mut Rng, acc: &mut Acc) {
     if long {
         for a in 0..nd {
             if a != axis {
-                shape[a] = 1 + rng.below(2);
+                shape[a] = 1 + rng.below(3);
             }
         }
     }
@@ -855,6 +872,15 @@ fn c03_tracked(rng: &mut Rng, acc: &mut Acc) {
                     qs[0] = n64(0.0);
                     qs[nq - 1] = n64(1.0);
                 }
+                if long && rng.chance(0.6) {
+                    // dense request: (nearly) every rank of a long lane, in scrambled order, with several lanes
+                    let keep = *rng.pick(&[1.0, 0.9, 0.8]);
+                    qs = (0..n).filter(|_| rng.chance(keep)).map(|k| n64(k as f64 / (n - 1) as f64)).collect();
+                    let mut qv = qs.clone();
+                    rng.shuffle(&mut qv);
+                    qs = qv;
+                }
+                let nq = qs.len();
                 if op == 1 && nq > 0 {
                     // an erroring call must not modify anything
                     qs[nq - 1] = n64(*rng.pick(&[-0.5, 1.5, -1e-9, 1.0 + 1e-9]));
